@@ -142,16 +142,20 @@ Definition pstep := (sid * list bytes)%type.          (* an ancestor: schema nod
 Definition step_of (sch : schema) (n : dnode) : pstep := (d_sid n, key_vals sch n).
 
 Record change := mk_change {
+  c_silent : bool;              (* a deletion libyang makes but does NOT put into the diff (never a create) *)
   c_create : bool;              (* LYD_DIFF_OP_CREATE / LYD_DIFF_OP_DELETE *)
   c_path : list pstep;          (* the ancestors, outermost first *)
   c_node : dnode                (* the node (delete: with its subtree) *)
 }.
+Definition mk_del (path : list pstep) (n : dnode) : change := mk_change false false path n.
+Definition mk_create (path : list pstep) (n : dnode) : change := mk_change false true path n.
 
-(* lyd_validate_autodel_node_del(np_cont_diff = 0): a deleted NP container is not recorded, its children are *)
+(* lyd_validate_autodel_node_del(np_cont_diff = 0): a deleted NP container is not recorded (the silent entry), its
+   children are *)
 Definition del_changes (sch : schema) (path : list pstep) (n : dnode) : list change :=
   if is_np_cont sch (d_sid n)
-  then map (mk_change false (path ++ [step_of sch n])) (d_ch n)
-  else [mk_change false path n].
+  then mk_change true false path (set_ch n []) :: map (mk_del (path ++ [step_of sch n])) (d_ch n)
+  else [mk_del path n].
 
 Fixpoint fold_res {A S} (f : S -> A -> res S) (l : list A) (s : S) : res S :=
   match l with
@@ -186,7 +190,7 @@ Definition validate_cases (sch : schema) (path : list pstep) (p : option sid) (p
     match on with
     | (Some ko, Some _) =>
         Ok (filter (fun n => negb (in_case sch pre c ko n)) f,
-            map (mk_change false path) (filter (in_case sch pre c ko) f))
+            map (mk_del path) (filter (in_case sch pre c ko) f))
     | _ => Ok (f, [])
     end).
 
@@ -294,7 +298,7 @@ Definition mk_dflt (s : sid) (v : bytes) : dnode := DN s v true [] [].
 
 Definition add_dflt (sch : schema) (path : list pstep) (s : sid) (st : forest * list change) (v : bytes)
   : forest * list change :=
-  (insert_node sch (fst st) (mk_dflt s v), snd st ++ [mk_change true path (mk_dflt s v)]).
+  (insert_node sch (fst st) (mk_dflt s v), snd st ++ [mk_create path (mk_dflt s v)]).
 
 (* nostate = LYD_IMPLICIT_NO_STATE: config false schema nodes are skipped (a config false choice holds only such nodes) *)
 Definition impl_snode (sch : schema) (nostate : bool) (path : list pstep) (st : forest * list change) (s : sid)
@@ -335,6 +339,18 @@ Fixpoint implicit (fuel : nat) (sch : schema) (nostate : bool) (path : list pste
 (* ------------------------------------------------------------------------------------------- *)
 (* the DFS: lyd_validate_subtree (val = true) / lyd_new_implicit_tree (val = false)              *)
 (* ------------------------------------------------------------------------------------------- *)
+(* the children of every inner sibling, in sibling order (rec = the DFS one level down) *)
+Fixpoint descend (rec : list pstep -> option sid -> forest -> res (forest * list change)) (sch : schema)
+         (path : list pstep) (l : forest) (acc : list change) : res (forest * list change) :=
+  match l with
+  | [] => Ok ([], acc)
+  | n :: r =>
+      bind (if is_inner sch (d_sid n)
+            then bind (rec (path ++ [step_of sch n]) (Some (d_sid n)) (d_ch n)) (fun c => Ok (set_ch n (fst c), snd c))
+            else Ok (n, [])) (fun n' =>
+      bind (descend rec sch path r (acc ++ snd n')) (fun r' => Ok (fst n' :: fst r', snd r')))
+  end.
+
 Fixpoint level (fuel : nat) (val nostate : bool) (sch : schema) (path : list pstep) (p : option sid) (f : forest)
   : res (forest * list change) :=
   match fuel with
@@ -342,16 +358,7 @@ Fixpoint level (fuel : nat) (val nostate : bool) (sch : schema) (path : list pst
   | S fuel' =>
       bind (if val then vnew sch path p f else Ok (f, [])) (fun st1 =>
       bind (implicit (cfuel sch) sch nostate path p [] st1) (fun st2 =>
-      (fix go (l : forest) (acc : list change) : res (forest * list change) :=
-         match l with
-         | [] => Ok ([], acc)
-         | n :: r =>
-             bind (if is_inner sch (d_sid n)
-                   then bind (level fuel' val nostate sch (path ++ [step_of sch n]) (Some (d_sid n)) (d_ch n)) (fun c =>
-                          Ok (set_ch n (fst c), snd c))
-                   else Ok (n, [])) (fun n' =>
-             bind (go r (acc ++ snd n')) (fun r' => Ok (fst n' :: fst r', snd r')))
-         end) (fst st2) (snd st2)))
+      descend (level fuel' val nostate sch) sch path (fst st2) (snd st2)))
   end.
 
 Definition dfuel (sch : schema) : nat := S (length sch).
@@ -446,7 +453,7 @@ Fixpoint flat_node (sch : schema) (create : bool) (path : list pstep) (n : dnode
   end.
 
 Definition flat_change (sch : schema) (c : change) : list fchange :=
-  flat_node sch (c_create c) (c_path c) (c_node c).
+  if c_silent c then [] else flat_node sch (c_create c) (c_path c) (c_node c).
 
 Fixpoint pstep_eqb (a b : list pstep) : bool :=
   match a, b with
@@ -468,3 +475,169 @@ Fixpoint net_add (acc : list fchange) (x : fchange) : list fchange :=
 
 Definition net (sch : schema) (d : list change) : list fchange :=
   fold_left net_add (flat_map (flat_change sch) d) [].
+
+(* ------------------------------------------------------------------------------------------- *)
+(* SPEC (independent of the functions above): the normal form RFC 7950 requires                 *)
+(*   7.6.1 / 7.7.2  a default leaf / the default leaf-list values are in use iff no instance exists and the ancestors *)
+(*                  exist (for a node in a case: 7.9.3)                                                                *)
+(*   7.5.1          a non-presence container exists whenever its parent does (libyang: default-flagged iff it holds no *)
+(*                  explicit node)                                                                                     *)
+(*   7.9.3          the nodes of a case are in use iff a node of the case exists, or it is the default case and no node *)
+(*                  of any case of the choice exists - level by level for nested choices                               *)
+(* explicit = not default-flagged. *)
+(* ------------------------------------------------------------------------------------------- *)
+Definition expl (n : dnode) : bool := negb (d_dflt n).
+
+(* every case on the chain l (below the level pre) is in use among the siblings g *)
+Fixpoint active_from (sch : schema) (g : forest) (pre : list cc) (l : list chc) : bool :=
+  match l with
+  | [] => true
+  | x :: l' =>
+      (existsb (fun n => expl n && in_case sch pre (ch_id x) (ch_case x) n) g ||
+       (ch_dflt x && negb (existsb (fun n => expl n && in_choice sch pre (ch_id x) n) g))) &&
+      active_from sch g (pre ++ [cc_of x]) l'
+  end.
+Definition active (sch : schema) (g : forest) (s : sid) : bool := active_from sch g [] (chainf sch s).
+
+Definition count_val (v : bytes) (l : list bytes) : nat := length (filter (beq_bytes v) l).
+Definition same_vals (a b : list bytes) : bool :=
+  forallb (fun v => Nat.eqb (count_val v a) (count_val v b)) (a ++ b).
+
+Definition is_nil {A} (l : list A) : bool := match l with [] => true | _ => false end.
+
+(* the default-flagged instances of schema node s among the siblings g are exactly the ones required *)
+Definition norm_snode (sch : schema) (g : forest) (s : sid) : bool :=
+  let D := filter (is_dflt_of s) g in
+  let want := is_nil (filter (is_expl_of s) g) && active sch g s in
+  match kind_of sch s with
+  | KLeaf =>
+      match si_dflts (sget sch s) with
+      | v :: _ => if want then match D with [x] => beq_bytes (d_val x) v && is_nil (d_ch x) | _ => false end else is_nil D
+      | [] => is_nil D
+      end
+  | KLeafList =>
+      match si_dflts (sget sch s) with
+      | [] => is_nil D
+      | vs => if want then same_vals (map d_val D) vs && forallb (fun x => is_nil (d_ch x)) D else is_nil D
+      end
+  | KCont false => if want then match D with [_] => true | _ => false end else is_nil D
+  | _ => is_nil D
+  end.
+
+(* two sibling schema nodes in different cases of one choice *)
+Fixpoint chain_conflict (a b : list chc) : bool :=
+  match a, b with
+  | x :: a', y :: b' =>
+      if ch_id x =? ch_id y then (if ch_case x =? ch_case y then chain_conflict a' b' else true) else false
+  | _, _ => false
+  end.
+Definition cases_okb (sch : schema) (g : forest) : bool :=
+  forallb (fun a => forallb (fun b => negb (chain_conflict (chainf sch (d_sid a)) (chainf sch (d_sid b)))) g) g.
+
+Definition norm_level (sch : schema) (p : option sid) (g : forest) : bool :=
+  forallb (fun n => negb (d_new n)) g &&
+  forallb (fun n => existsb (N.eqb (d_sid n)) (schildren sch p)) g &&      (* instances of schema children of p *)
+  cases_okb sch g && forallb (norm_snode sch g) (schildren sch p).
+
+Fixpoint normal_node (sch : schema) (n : dnode) {struct n} : bool :=
+  match n with
+  | DN s v d m ch =>
+      (if is_np_cont sch s then Bool.eqb d (forallb d_dflt ch) else true) &&
+      (if is_inner sch s then norm_level sch (Some s) ch else true) &&
+      (fix all (l : list dnode) : bool := match l with [] => true | x :: l' => normal_node sch x && all l' end) ch
+  end.
+
+Definition normalb (sch : schema) (g : forest) : bool := norm_level sch None g && forallb (normal_node sch) g.
+
+(* the explicit content: default-flagged nodes dropped, LYD_NEW cleared *)
+Fixpoint strip_node (n : dnode) {struct n} : dnode :=
+  match n with
+  | DN s v d m ch =>
+      DN s v d (filter (fun kv => negb (is_newkv kv)) m)
+         ((fix go (l : list dnode) : list dnode :=
+             match l with [] => [] | x :: l' => if d_dflt x then go l' else strip_node x :: go l' end) ch)
+  end.
+Fixpoint strip (f : forest) : forest :=
+  match f with [] => [] | x :: r => if d_dflt x then strip r else strip_node x :: strip r end.
+
+(* ------------------------------------------------------------------------------------------- *)
+(* SPEC: replaying a change list (what lyd_diff_apply_all does with creates / deletes)            *)
+(* ------------------------------------------------------------------------------------------- *)
+Definition step_is (sch : schema) (st : pstep) (n : dnode) : bool :=
+  (d_sid n =? fst st) && beq_bytes_list (key_vals sch n) (snd st).
+
+Fixpoint at_path (sch : schema) (path : list pstep) (F : forest -> forest) (f : forest) : forest :=
+  match path with
+  | [] => F f
+  | st :: path' => map (fun n => if step_is sch st n then set_ch n (at_path sch path' F (d_ch n)) else n) f
+  end.
+
+(* the instance a recorded node stands for *)
+Definition same_node (sch : schema) (a b : dnode) : bool :=
+  (d_sid a =? d_sid b) &&
+  (if multi sch (d_sid a) then beq_bytes (d_val a) (d_val b) && beq_bytes_list (key_vals sch a) (key_vals sch b) else true).
+
+Definition apply_change (sch : schema) (f : forest) (c : change) : forest :=
+  if c_silent c then f
+  else if c_create c then at_path sch (c_path c) (fun g => insert_node sch g (c_node c)) f
+  else at_path sch (c_path c) (remove_first (same_node sch (c_node c))) f.
+
+Definition apply_changes (sch : schema) (d : list change) (f : forest) : forest := fold_left (apply_change sch) d f.
+
+(* the same with the deletions libyang does not report applied too (what the diff would have to contain) *)
+Definition unsilent (c : change) : change := mk_change false (c_create c) (c_path c) (c_node c).
+Definition apply_changes_all (sch : schema) (d : list change) (f : forest) : forest :=
+  apply_changes sch (map unsilent d) f.
+
+(* lyd_diff_apply keeps the NP container flags right (lyd_insert / lyd_unlink) and the comparison ignores LYD_NEW:
+   clear LYD_NEW, recompute the default flag of NP containers bottom-up *)
+Fixpoint np_norm_node (sch : schema) (n : dnode) {struct n} : dnode :=
+  match n with
+  | DN s v d m ch =>
+      let ch' := (fix go (l : list dnode) : list dnode :=
+                    match l with [] => [] | x :: l' => np_norm_node sch x :: go l' end) ch in
+      DN s v (if is_np_cont sch s then forallb d_dflt ch' else d) (filter (fun kv => negb (is_newkv kv)) m) ch'
+  end.
+Definition np_norm (sch : schema) (f : forest) : forest := map (np_norm_node sch) f.
+
+(* SPEC: the default flag is sound: a default-flagged node is a leaf / leaf-list instance holding one of the default
+   values of its schema node, or a non-presence container *)
+Definition sound_top (sch : schema) (n : dnode) : bool :=
+  negb (d_dflt n) ||
+  match kind_of sch (d_sid n) with
+  | KLeaf | KLeafList => existsb (beq_bytes (d_val n)) (si_dflts (sget sch (d_sid n)))
+  | KCont false => true
+  | _ => false
+  end.
+Fixpoint sound_node (sch : schema) (n : dnode) {struct n} : bool :=
+  match n with
+  | DN s v d m ch =>
+      sound_top sch (DN s v d m ch) &&
+      (fix all (l : list dnode) : bool := match l with [] => true | x :: l' => sound_node sch x && all l' end) ch
+  end.
+Definition flag_soundb (sch : schema) (f : forest) : bool := forallb (sound_node sch) f.
+
+(* schema sanity of the choice encoding (tools/treeenc.py guarantees it): one (choice, case) pair carries the same
+   flags wherever it occurs, and a choice has at most one default case *)
+Definition all_chcs (sch : schema) : list chc := flat_map (fun e : sid * sinfo => si_choice (snd e)) sch.
+Definition chc_okb (sch : schema) : bool :=
+  forallb (fun x => forallb (fun y =>
+    negb (ch_id x =? ch_id y) ||
+    ((negb (ch_case x =? ch_case y) || (Bool.eqb (ch_dflt x) (ch_dflt y) && Bool.eqb (ch_mand x) (ch_mand y))) &&
+     (negb (ch_dflt x && ch_dflt y) || (ch_case x =? ch_case y)))) (all_chcs sch)) (all_chcs sch).
+
+(* input well-formedness the edit API maintains (lyd_np_cont_dflt_del / _set on insert, unlink, change): an NP container
+   is default-flagged iff all its children are *)
+Fixpoint np_flags_node (sch : schema) (n : dnode) {struct n} : bool :=
+  match n with
+  | DN s v d m ch =>
+      (if is_np_cont sch s then Bool.eqb d (forallb d_dflt ch) else true) &&
+      (fix all (l : list dnode) : bool := match l with [] => true | x :: l' => np_flags_node sch x && all l' end) ch
+  end.
+Definition np_flagsb (sch : schema) (f : forest) : bool := forallb (np_flags_node sch) f.
+
+(* every node a change list addresses has an instance identity (no key-less list / state leaf-list on a path: their
+   instances are addressed by position, libyang asserts on them - finding vdiff-dupinst) *)
+Definition change_idb (sch : schema) (c : change) : bool :=
+  forallb (fun st : pstep => negb (dup_inst sch (fst st))) (c_path c) && negb (dup_inst sch (d_sid (c_node c))).
+Definition changes_idb (sch : schema) (d : list change) : bool := forallb (change_idb sch) d.
